@@ -8,7 +8,8 @@ from harness import core, e1common
 PROP = 'C13'
 MODULE = 'Props.C13'
 THEOREMS = ['C13_sum_of_threads', 'C13_interleave_invariant', 'C13_unenabled_thread_silent', 'C13_hits_exact',
-            'C13_reported_interleave_invariant', 'C13_nonvacuous', 'C13_model_is_generated_core']
+            'C13_reported_interleave_invariant', 'C13_nonvacuous', 'C13_model_is_generated_core',
+            'C13_operations_are_thread_local', 'C13_idle_thread_untouched', 'C13_disable_effect']
 LEVEL = 'proof'
 FEATURES_T = [{'gen'}, set(), {'rec'}, {'gen', 'rec'}]
 FEATURES_M = [{'monitor'}, {'baton'}, {'baton', 'gen'}, {'baton', 'rec'}, {'monitor', 'gen'}, {'baton', 'monitor'}]
